@@ -59,6 +59,27 @@ class Pats:
                 m[i] = i
         return m
 
+    def _casemap(self, lang, mp, what):
+        used = ro.used_blocks(lang)
+        A = self.A
+        for b in used:
+            if mp[b] is None:
+                raise AnalysisError('str.%s is not a letter-to-letter map on block %s' % (what, A.names[b]))
+            if A.sizes[b] > 1 and not (b in self.DIG or b in self.WS):
+                # residual letters may change block under case mapping (e.g. U+017F -> S): not representable
+                if 'word=True' in A.names[b]:
+                    raise AnalysisError('str.%s applied to a language containing unclassified letters (%s)' % (what, A.names[b]))
+        return ro.relabel(lang, mp)
+
+    def upper(self, lang):
+        return self._casemap(lang, self.UM, 'upper')
+
+    def lower(self, lang):
+        return self._casemap(lang, self.LM, 'lower')
+
+    def UM_total(self):
+        return {b: (t if t is not None else b) for b, t in self.UM.items()}
+
     def need(self, name):
         if name not in self.parsed:
             why = self.unfolded.get(name, 'not defined in codes.py')
